@@ -1,6 +1,9 @@
 import TexcraftModel.Lemmas.C20GMap
 import TexcraftModel.Lemmas.C20Vec
 import TexcraftModel.Lemmas.C20Obs
+import TexcraftModel.Lemmas.C20Backing
+import TexcraftModel.Lemmas.C20Equiv
+import TexcraftModel.Lemmas.C20TagsFine
 import TexcraftModel.Lemmas.C20Interner
 import TexcraftModel.Lemmas.C20Kmp
 import TexcraftModel.Lemmas.C20Tags
@@ -334,5 +337,107 @@ example : (run init [.new 0, .get 1 7, .new 2, .get 0 7, .new 1]).2.map (·.2)
 example : ([Ev.new 0, .new 1, .new 0] : List Ev).length + 1 < u32Max := by decide
 
 end Tags
+
+/-! ## Deepening round
+
+### The container code over any backing container (`Model/C20Backing.lean`)
+
+`BMap bk` is the Rust container code written once against the trait `BackingContainer` (`Backing`).
+The theorems below hold for every lawful backing; `hashBacking` (HashMap) and `vecBacking`
+(`Vec<Option<V>>`) are lawful, so clients (C01, C08) get both `GroupingHashMap` and `GroupingVec`. -/
+section Backing
+variable {K V : Type} [DecidableEq K] {bk : Backing K V}
+
+theorem bmap_simulates (law : bk.Lawful) (bm : BMap bk) (m : GMap K V) (op : Op K V) (h : BSim bm m) :
+    BSim (bm.step op).1 (m.step op).1 ∧ (bm.step op).2 = (m.step op).2 :=
+  C20.bsim_step law bm m op h
+
+/-- Every history, any lawful backing: the outputs of the stack of snapshots. -/
+theorem bmap_refines_run (law : bk.Lawful) (ops : List (Op K V)) :
+    ((BMap.empty : BMap bk).run ops).2 = (Snap.init.run ops).2 :=
+  C20.bmap_refines_run law ops
+
+theorem bmap_get_run (law : bk.Lawful) (ops : List (Op K V)) (k : K) :
+    ((BMap.empty : BMap bk).run ops).1.get k = (Snap.init.run ops).1.cur k :=
+  C20.bmap_get_run law ops k
+
+/-- `iter_all` → `FromIterator`, any lawful backing, after any history. -/
+theorem bmap_iterAll_roundtrip_run (law : bk.Lawful) (pre post : List (Op K V)) :
+    ∃ items, ((BMap.empty : BMap bk).run pre).1.iterAll = .ok items ∧
+      ((BMap.fromIter items : BMap bk).run post).2 = (((BMap.empty : BMap bk).run pre).1.run post).2 ∧
+      ((BMap.fromIter items : BMap bk).run post).2 = ((Snap.init.run pre).1.run post).2 :=
+  C20.bmap_iterAll_roundtrip_run law pre post
+
+/-- `iter()`, `len()`, `is_empty()`, any lawful backing, after any history. -/
+theorem bmap_iter_spec (law : bk.Lawful) (ops : List (Op K V)) :
+    let bm := ((BMap.empty : BMap bk).run ops).1
+    let s := (Snap.init.run ops).1
+    (∀ k v, (k, v) ∈ bm.iter ↔ s.cur k = some v) ∧ (bm.iter.map (·.1)).Nodup ∧
+      bm.len = bm.iter.length ∧ (bm.isEmpty = true ↔ ∀ k, s.cur k = none) :=
+  C20.bmap_iter_spec law ops
+
+/-- The two `impl`s of the trait satisfy the laws. -/
+theorem backings_lawful : (hashBacking K V).Lawful ∧ (vecBacking V).Lawful :=
+  ⟨hashBacking_lawful, vecBacking_lawful⟩
+
+/-- The HashMap instance of the generic code gives exactly the outputs of `GMap`. -/
+theorem bmap_hash_is_gmap (ops : List (Op K V)) :
+    ((BMap.empty : BMap (hashBacking K V)).run ops).2 = ((GMap.empty : GMap K V).run ops).2 :=
+  C20.bmap_hash_is_gmap ops
+
+example : ((BMap.empty : BMap (vecBacking Nat)).run
+    [.insert 3 1 .loc, .beginGroup, .insert 3 2 .glob, .insert 0 5 .loc, .endGroup, .get 3, .get 0]).2
+    = [.existed false, .unit, .existed true, .existed false, .unit, .val (some 2), .val none] := by
+  decide
+
+/-! ### Mutant 14 of the sweep is equivalent (why `end_group` may restore "only if present") -/
+
+theorem endGroup_getMut_equiv (m : GMap K V) (h : Inv m) : m.endGroupGetMut = m.endGroup :=
+  C20.endGroup_getMut_equiv m h
+
+/-- … on every reachable map. -/
+theorem endGroup_getMut_equiv_run (ops : List (Op K V)) :
+    ((GMap.empty : GMap K V).run ops).1.endGroupGetMut = ((GMap.empty : GMap K V).run ops).1.endGroup :=
+  C20.endGroup_getMut_equiv _ (C20.inv_reachable ops)
+
+end Backing
+
+/-! ### Tags at instruction level (`Model/C20TagsFine.lean`): the assumption is exactly "the lock is exclusive" -/
+namespace TagsFine
+open C20.TagsFine
+
+/-- `Tag::new` as coded (lock; read; write; unlock), mutex as a primitive: for every schedule — any
+number of threads and calls, blocked acquisitions included — the returned tags are pairwise distinct. -/
+theorem lock_tags_distinct (sched : List Nat) : (tags (run lockProg init sched)).Nodup :=
+  C20.TagsFine.lock_tags_distinct sched
+
+/-- They are exactly the numbers `1 … n` (each below the counter, counter = number of tags + 1),
+and at most one thread is ever inside the critical section. -/
+theorem lock_tags_exact (sched : List Nat) :
+    (∀ t ∈ tags (run lockProg init sched), 1 ≤ t ∧ t < (run lockProg init sched).counter) ∧
+    (run lockProg init sched).counter = (tags (run lockProg init sched)).length + 1 ∧
+    (∀ i j, ((run lockProg init sched).th i).pc ≠ 0 → ((run lockProg init sched).th j).pc ≠ 0 → i = j) :=
+  ⟨lock_tags_range sched, lock_tags_count sched, lock_mutual_exclusion sched⟩
+
+/-- Mutant 35 (lock released between the read and the write), same machine: a schedule with a duplicate. -/
+theorem racy_duplicate : ∃ sched, ¬ (tags (run racyProg init sched)).Nodup :=
+  C20.TagsFine.racy_duplicate
+
+end TagsFine
+
+namespace StaticFine
+open C20.StaticFine
+
+/-- `StaticTag::get` as coded (`get_or_init` atomic): one value, in every schedule. -/
+theorem coded_static_once (sched : List Nat) :
+    ∀ v ∈ vals (run codedProg init sched), ∀ w ∈ vals (run codedProg init sched), v = w :=
+  C20.StaticFine.coded_static_once sched
+
+/-- Mutant 36 (`get()`, `Tag::new()`, `set()`), same machine: a schedule with two different values. -/
+theorem mutant_static_two_values :
+    ∃ sched, ∃ v ∈ vals (run mutantProg init sched), ∃ w ∈ vals (run mutantProg init sched), v ≠ w :=
+  C20.StaticFine.mutant_static_two_values
+
+end StaticFine
 
 end C20.Thm
